@@ -123,6 +123,11 @@ func (obj Object) CompletionAtPos(ctx context.Context, pos hcl.Pos) []lang.Candi
 				// it means the attribute is likely quoted
 				if pos.Byte >= attrRange.Start.Byte {
 					prefixLen := pos.Byte - attrRange.Start.Byte
+					if prefixLen > len(attrName) {
+						// the source of a quoted key with escapes is longer
+						// than the key it denotes
+						prefixLen = len(attrName)
+					}
 					prefix = attrName[0:prefixLen]
 				}
 
